@@ -72,3 +72,13 @@ def run_atomize(path):
         return {"error": "%s: %s" % (type(e).__name__, str(e)[:200]), "etype": type(e).__name__, "where": fn,
                 "partial": buf.getvalue()}
     return {"out": buf.getvalue()}
+
+
+def run_cli(argv, timeout=600):
+    """The real command line in a fresh interpreter: `mchap <argv...>` -> {"rc":, "out":, "err": tail}."""
+    import subprocess
+    import sys
+
+    code = "import sys; from mchap.application.cli import main; sys.argv = ['mchap'] + sys.argv[1:]; main()"
+    p = subprocess.run([sys.executable, "-c", code] + expand(argv), capture_output=True, text=True, timeout=timeout)
+    return {"rc": p.returncode, "out": p.stdout, "err": p.stderr[-1500:]}
